@@ -25,11 +25,11 @@ type CountSummary struct {
 
 // countingLoop: the shape shared by callee and caller.
 type countingLoop struct {
-	head  *ssa.BasicBlock
-	cnt   *ssa.Phi  // counter: 0, +1 on exactly one edge
-	idx   ssa.Value // range index value (k+1) used inside the body
-	n     int64     // constant trip bound
-	incBB *ssa.BasicBlock
+	head   *ssa.BasicBlock
+	cnt    *ssa.Phi  // counter: 0, +1 on exactly one edge
+	idx    ssa.Value // range index value (k+1) used inside the body
+	n      int64     // constant trip bound
+	incBB  *ssa.BasicBlock
 	blocks map[*ssa.BasicBlock]bool
 }
 
